@@ -184,7 +184,13 @@ class _AsmRec:
         self.calls.append(dict(dz=dz, t_gap=t_gap, h_gap=h_gap, adiabatic=adiabatic, ebal=ebal))
 
     def check_region_update(self, z):
-        return False
+        self.asked = z
+        return self.will_change
+
+    will_change = False
+
+    def update_region(self, z, t_gap, h_gap, adiabatic=False):
+        self.updated = dict(z=z, t_gap=t_gap, h_gap=h_gap, adiabatic=adiabatic)
 
 
 class _CoreRec:
@@ -228,7 +234,18 @@ def glue(S, cfg):
     r.assemblies = asms
     r.core = _CoreRec(model, hs, Ts_g)
     dz = S.pos('dz', 0.001, 0.02)
+    if cfg.get('region_change'):
+        asms[1].will_change = True
     r.axial_step(0.1, dz, 0)
+    for a in range(2):
+        S.holds(f'glue.region_update_asked_for_next_plane[{a}]', asms[a].asked == r.z[1])
+    if cfg.get('region_change'):
+        S.holds('glue.only_changing_assembly_updated', asms[0].updated is False and asms[1].updated is not False)
+        up = asms[1].updated
+        S.holds('glue.update_at_next_plane', up['z'] == r.z[1])
+        S.holds('glue.update_adiabatic_flag', up['adiabatic'] == (model is None))
+        S.eq('glue.update_gets_gap_temperature_of_its_assembly', up['t_gap'], Ts_g[1])
+        S.eq('glue.update_gets_gap_htc_of_its_assembly', up['h_gap'], hs[1])
     for a in range(2):
         S.holds(f'glue.assembly_called_once[{a}]', len(asms[a].calls) == 1)
         call = asms[a].calls[0]
@@ -444,7 +461,7 @@ def configs(tier):
            (region_step, dict(n_ring=2, n_duct=2)), (region_step, dict(n_ring=2, n_duct=3)),
            (unrodded_step, dict(model='simple')), (unrodded_step, dict(model='simple', adiabatic=True)),
            (unrodded_step, dict(model='6node')), (unrodded_step, dict(model='6node', adiabatic=True)),
-           (glue, dict()), (glue, dict(model=None)), (region_change, dict()), (region_change, dict(adiabatic=True)),
+           (glue, dict()), (glue, dict(model=None)), (glue, dict(region_change=True)), (region_change, dict()), (region_change, dict(adiabatic=True)),
            (exchange, dict(n=2, same=True)), (exchange, dict(n=2, m=3)), (exchange, dict(n=3, m=2)),
            (exchange, dict(n=3, m=4, pad=2)),
            (gap_step, dict(present=(1,), types='c')), (gap_step, dict(present=(1, 1, 1), types='acU')),
